@@ -21,6 +21,23 @@ type replayGen func(eng *Engine, o *Oblig) (pkgDir, testSrc, testName string, ok
 
 var replayGens []replayGen
 
+func init() { replayGens = append(replayGens, replayKnown) }
+
+// replayKnown: hand-written replays of recorded findings, /verif/known_replays/<obligation>.go with a
+// first line "// pkg: <dir>".
+func replayKnown(eng *Engine, o *Oblig) (string, string, string, bool) {
+	path := filepath.Join(verifRoot(), "known_replays", fileSafe.ReplaceAllString(o.Name, "_")+".go")
+	data, err := os.ReadFile(path)
+	if err != nil {
+		return "", "", "", false
+	}
+	first, _, _ := strings.Cut(string(data), "\n")
+	if !strings.HasPrefix(first, "// pkg:") {
+		return "", "", "", false
+	}
+	return strings.TrimSpace(strings.TrimPrefix(first, "// pkg:")), string(data), "TestGovcReplay", true
+}
+
 func writeReplay(eng *Engine, dir, prop string, o *Oblig, repo string) (string, bool) {
 	base := filepath.Join(dir, fileSafe.ReplaceAllString(o.Name, "_"))
 	if len(base) > 180 {
